@@ -172,8 +172,16 @@ def exercise_transit(hints, receiver=False):
         log.removeObserver(errs)
 
 
-def exercise_dilation(hints):
-    """The `connection-hints` message into a real Manager with a real Connector (no listener)."""
+# (STOPPED is left out: the Manager is stopped only after the mailbox connection is gone - Terminator: stoppedRC, then D.stop() -
+# so no message can reach it there; a first version of this family delivered hints to a STOPPED Manager and got NoTransition on
+# the unchanged tree: a state the composed client cannot be in, removed)
+MANAGER_STATES = ["CONNECTING", "WANTING", "CONNECTED-follower", "LONELY", "CONNECTED-leader", "FLUSHING"]
+
+
+def exercise_dilation(hints, state="CONNECTING"):
+    """The `connection-hints` message into a real Manager with a real Connector (no listener), in the Manager state named:
+    the message may arrive at any time (a stale one of the previous generation, a peer that sends early or late); only in
+    CONNECTING are the hints used, everywhere else handling them must simply not raise."""
     from unittest import mock
     from zope.interface import alsoProvides
     from twisted.internet.task import Cooperator
@@ -189,11 +197,24 @@ def exercise_dilation(hints):
         coop = Cooperator(scheduler=eq.eventually)
         send = mock.Mock()
         alsoProvides(send, ISend)
-        m = Manager(send, "aaaaaaaaaaaaaaaa", None, reactor, eq, coop, DILATION_VERSIONS, 30.0, None, True)
+        leader = state in ("CONNECTED-leader", "FLUSHING")
+        m = Manager(send, "ffffffffffffffff" if leader else "aaaaaaaaaaaaaaaa", None, reactor, eq, coop, DILATION_VERSIONS, 30.0, None, True)
         m.got_dilation_key(b"k" * 32)
         m.got_wormhole_versions({"can-dilate": DILATION_VERSIONS})
-        m.rx_PLEASE({"side": "ffffffffffffffff", "type": "please"})
+        if state != "WANTING":
+            m.rx_PLEASE({"side": "0000000000000000" if leader else "ffffffffffffffff", "type": "please"})
         run_timers(1.0)
+        if state in ("CONNECTED-follower", "LONELY", "CONNECTED-leader", "FLUSHING"):
+            conn = mock.Mock()
+            m.connector_connection_made(conn)
+            run_timers(0.0)
+            if state in ("LONELY", "FLUSHING"):
+                m.connector_connection_lost()
+                run_timers(0.0)
+        elif state == "STOPPED":
+            m.stop()
+            run_timers(0.0)
+        del reactor.attempts[:]          # (nothing dialled during the set-up counts)
         try:
             m.received_dilation_message(dict_to_bytes({"type": "connection-hints", "hints": hints}))
         except Exception as e:
@@ -259,8 +280,11 @@ def run(prop, tier):
                     j, i2 = conc.hint(h)
                     hints.append(j)
                     ids.update(i2)
+                mstate = "CONNECTING"
                 if entry == "dilation":
-                    excs, ports = exercise_dilation(hints)
+                    # every fourth dilation case meets the Manager in another state (there the hints are not used)
+                    mstate = MANAGER_STATES[(evaluations // 4) % len(MANAGER_STATES)] if evaluations % 4 == 3 else "CONNECTING"
+                    excs, ports = exercise_dilation(hints, mstate)
                 else:
                     excs, ports = exercise_transit(hints, receiver=entry.endswith("receiver"))
                 if any(h2["hostname"] == "oddstr" for h in case for h2 in [h] + list(h["sub"] if h["type"] == "relay-v1" and h["subkind"] == "list" else [])):
@@ -275,7 +299,7 @@ def run(prop, tier):
                     excs = kept
                 evaluations += 1
                 nontrivial.add((shape(case), entry))
-                must_ports = expected_ports(case, ids, must)
+                must_ports = expected_ports(case, ids, must) if mstate == "CONNECTING" else set()
                 may_ports = expected_ports(case, ids, may)
                 problem = None
                 if excs:
@@ -290,7 +314,7 @@ def run(prop, tier):
                                {"entry": entry.split("-")[0], "clause": "invalid-dialled", "case": shape(case)})
                 if problem:
                     v.violation(problem[2], "%s: %s ; hints=%s" % (entry, problem[1], json.dumps(hints)[:300]),
-                                {"entry": entry, "hints": hints, "abstract_case": case, "must_ports": sorted(must_ports),
+                                {"entry": entry, "manager_state": mstate, "hints": hints, "abstract_case": case, "must_ports": sorted(must_ports),
                                  "may_ports": sorted(may_ports), "dialled": sorted(ports)})
     # ---- hints this side produces are parsed back into the same targets
     rt = round_trip_checks(v)
